@@ -50,7 +50,7 @@ func verifIsExpression(n Node) bool { return n.IsExpression() }
 //@ spec startchar(n) = uf("ast.startchar", int, n)
 
 //@ func (*Map).SortedKeys
-//@ props C05 C03 C01
+//@ props C05 C03 C01 C20
 //@ requires m != nil
 //@ assume[ast.items.nonnil] forallU(k, Expression, haskey(m.items, k) ==> k != nil && ref(k) != nil && m.items[k] != nil && ref(m.items[k]) != nil)
 //@ modifies nothing
@@ -61,6 +61,9 @@ func verifIsExpression(n Node) bool { return n.IsExpression() }
 // has to be in source order - by position in the text, not by anything else: seed C01h ordered the keys by their text,
 // which evaluated `{"b": f(), "a": g()}` as g() then f())
 //@ sortby[C01.order.map.less] 1: startchar(keys[i]) < startchar(keys[j])
+// C20 (layout): the order is by offset in the text, which no line break changes - not by line and column (seed C20g
+// compared columns when the lines differ: `{a: 1, b: 2,\n c: 3}` came out in a random order)
+//@ sortby[C20.layout.mapkeys.less] 1: startchar(keys[i]) < startchar(keys[j])
 //@ ensures[C01.order.map] forall(i, 0, len(result), forall(j, i, len(result), startchar(result[i]) <= startchar(result[j])))
 //@ ensures[C05.astkeys.members] forall(j, 0, len(result), result[j] != nil && haskey(m.items, result[j]))
 //@ ensures[C03.astkeys.nonnil] forall(j, 0, len(result), ref(result[j]) != nil && m.items[result[j]] != nil && ref(m.items[result[j]]) != nil)
